@@ -60,8 +60,8 @@ Proof.
   split; [rewrite Rt0; reflexivity|].
   split.
   - replace (N.to_nat prec - 1)%nat with (N.to_nat (prec - 1)) by lia.
-    rewrite <- Hrt. change (Pos.to_nat 2) with 2%nat. cbn [ppow_s].
-    transitivity (den rt * den rt * den t)%ps.
+    eapply eqn_trans; [|exact Hrt]. change (Pos.to_nat 2) with 2%nat. cbn [ppow_s].
+    apply eqn_trans with (den rt * den rt * den t)%ps.
     + apply eqn_mul; [reflexivity|]. rewrite Dt, H2. reflexivity.
     + apply peq_eqn. ring.
   - rewrite Dr, pD_pI. rewrite den_pmul_full; [|apply Wd|apply Wrt]. rewrite den_pdiff. reflexivity.
